@@ -75,7 +75,8 @@ Shift(A, o)   == {x + o : x \in A}
 BNodes(ps, i) == (Off(ps, i) + 1)..(Off(ps, i) + ps[i].n)
 BlockOf(ps, v) == CHOOSE i \in DOMAIN ps : v \in BNodes(ps, i)
 
-ExpandKeys(ps) == UNION {{Key(Shift(e, Off(ps, i)), {}, 0) : e \in LEdges(ps[i])} : i \in DOMAIN ps}
+ExpandEdges(ps) == UNION {{Shift(e, Off(ps, i)) : e \in LEdges(ps[i])} : i \in DOMAIN ps}     \* node sets
+ExpandKeys(ps)  == {Key(e, {}, 0) : e \in ExpandEdges(ps)}
 Expand(ps) == [Empty(FALSE, "Hypergraph") EXCEPT
                  !.nodes = 1..Total(ps),
                  !.nmd   = [n \in 1..Total(ps) |-> NoMeta],
